@@ -8,7 +8,7 @@ CONSTANTS
   MaxList = 2
   Ops = {}
   SetKeys = {}
-  Rts <- RollTypes
+  Rts = {"AlgorithmRoll", "KskRoll"}
   AltTag = {}
   OddLists = FALSE
   WellTyped = TRUE
